@@ -32,6 +32,10 @@ type smtBuilder struct {
 	instSeen map[string]bool
 	ufmul    bool
 	memo     map[*Term]*Term
+	ownDepth map[string]int
+	foralls  []*Term
+	fseen    map[*Term]bool
+	reveal   map[string]bool
 }
 
 func (sb *smtBuilder) pr(t *Term) string {
@@ -96,6 +100,10 @@ func hasBoundVar(t *Term, bound map[string]bool) bool {
 
 // scan collects declarations needed by t and instantiates recursive spec functions.
 func (sb *smtBuilder) scan(t *Term, depth int, bound map[string]bool) {
+	if t.BVars != nil && t.Op == "forall" && len(bound) == 0 && sb.fseen != nil && !sb.fseen[t] {
+		sb.fseen[t] = true
+		sb.foralls = append(sb.foralls, t)
+	}
 	if t.BVars != nil {
 		nb := map[string]bool{}
 		for k := range bound {
@@ -191,6 +199,22 @@ func (sb *smtBuilder) useSpec(sf *SpecFunc, app *Term, depth int, bound map[stri
 		if sb.instSeen[key] {
 			return
 		}
+		if sf.Hidden && !sb.reveal[sf.Name] {
+			return
+		}
+		if sf.MaxUnfold > 0 {
+			// this function has its own unfolding budget along a chain of nested unfoldings
+			if sb.ownDepth[name] >= sf.MaxUnfold {
+				return
+			}
+			sb.instSeen[key] = true
+			body := d.Body.subst(m)
+			sb.recInst = append(sb.recInst, tEq(app, body))
+			sb.ownDepth[name]++
+			sb.scan(body, depth, bound)
+			sb.ownDepth[name]--
+			return
+		}
 		if depth <= 0 {
 			return
 		}
@@ -233,6 +257,10 @@ func abstractMul(t *Term, memo map[*Term]*Term) *Term {
 		op := t.Op
 		if op == "*" && len(args) == 2 && !isNumLit(args[0]) && !isNumLit(args[1]) {
 			op = "umul_" + strings.ToLower(t.S.String())
+			ch = true
+		}
+		if op == "is_int" {
+			op = "uisint"
 			ch = true
 		}
 		if ch {
@@ -278,8 +306,70 @@ func (o *Obligation) smtMode(w *World, extraAsserts []*Term, getValues []*Term, 
 	}
 	sb.ufmul = ufmul
 	sb.memo = map[*Term]*Term{}
+	sb.ownDepth = map[string]int{}
+	sb.fseen = map[*Term]bool{}
+	sb.reveal = map[string]bool{}
+	for _, r := range o.Reveal {
+		sb.reveal[r] = true
+	}
 	sb.scan(o.Guard, depth, nil)
 	sb.scan(o.Goal, depth, nil)
+	// skolem-directed pre-instantiation: for every universally quantified formula F in the context and every
+	// skolem constant c of the goal, add the tautology F => F[c]; its ground applications of recursive spec
+	// functions then get their defining equations
+	var skolemInst []*Term
+	if !o.Cover {
+		sks := map[string]*Term{}
+		o.Goal.walk(func(x *Term) {
+			if len(x.Args) == 0 && strings.HasPrefix(x.Op, "sk_") {
+				sks[x.Op] = x
+			}
+			// members tested against a set in the goal are instantiation candidates as well
+			if x.Op == "select" && len(x.Args) == 2 && x.Args[0].S.Kind == KArray && x.Args[0].S.Elem.Kind == KBool && !hasBoundVar(x.Args[1], nil) && x.BVars == nil {
+				k := x.Args[1].String()
+				if len(k) < 200 {
+					sks["~"+k] = x.Args[1]
+				}
+			}
+		})
+		if len(sks) > 0 && len(sks) <= 4 {
+			fs := sb.foralls
+			for _, f := range fs {
+				var combos []map[string]*Term
+				combos = append(combos, map[string]*Term{})
+				for _, bv := range f.BVars {
+					var next []map[string]*Term
+					for _, c := range combos {
+						for _, k := range sortedKeys(sks) {
+							if !sks[k].S.Eq(bv.S) {
+								continue
+							}
+							m := map[string]*Term{}
+							for a, b := range c {
+								m[a] = b
+							}
+							m[bv.Op] = sks[k]
+							next = append(next, m)
+						}
+					}
+					combos = next
+					if len(combos) > 16 {
+						combos = combos[:16]
+					}
+				}
+				for _, m := range combos {
+					if len(m) != len(f.BVars) {
+						continue
+					}
+					inst := f.Args[0].subst(m)
+					skolemInst = append(skolemInst, inst)
+				}
+			}
+			for _, t := range skolemInst {
+				sb.scan(t, depth, nil)
+			}
+		}
+	}
 	for _, a := range extraAsserts {
 		sb.scan(a, depth, nil)
 	}
@@ -290,7 +380,11 @@ func (o *Obligation) smtMode(w *World, extraAsserts []*Term, getValues []*Term, 
 	logic := "ALL"
 	b.WriteString("(set-option :produce-models true)\n(set-logic " + logic + ")\n")
 	b.WriteString(w.Reg.decls())
-	if weaken {
+	if ufmul {
+		// integrality as an uninterpreted predicate (facts kept, no integer reasoning)
+		weaken = false
+		b.WriteString("(declare-fun uisint (Real) Bool)\n(define-fun is_int_dom ((x Real)) Bool (uisint x))\n(define-fun i2r ((x Int)) Real (to_real x))\n")
+	} else if weaken {
 		b.WriteString("(define-fun is_int_dom ((x Real)) Bool true)\n(define-fun i2r ((x Real)) Real x)\n")
 	} else {
 		b.WriteString("(define-fun is_int_dom ((x Real)) Bool (is_int x))\n(define-fun i2r ((x Int)) Real (to_real x))\n")
@@ -371,6 +465,9 @@ func (o *Obligation) smtMode(w *World, extraAsserts []*Term, getValues []*Term, 
 				continue
 			}
 			fmt.Fprintf(&b, "(declare-const %s %s)\n", d.Name, d.S)
+			if d.Dom && ufmul {
+				fmt.Fprintf(&b, "(assert (uisint (i2r %s)))\n", d.Name)
+			}
 		} else {
 			fmt.Fprintf(&b, "(define-fun %s () %s %s)\n", d.Name, d.S, sb.pr(d.Def))
 		}
@@ -381,6 +478,8 @@ func (o *Obligation) smtMode(w *World, extraAsserts []*Term, getValues []*Term, 
 	for _, a := range extraAsserts {
 		fmt.Fprintf(&b, "(assert %s)\n", sb.pr(a))
 	}
+	// (the instances themselves are not asserted: the solver's own instantiation produces them; they only
+	// served to discover which ground applications of recursive spec functions need their defining equations)
 	fmt.Fprintf(&b, "(assert %s)\n", sb.pr(o.Guard))
 	if !o.Cover {
 		fmt.Fprintf(&b, "(assert (not %s))\n", sb.pr(o.Goal))
@@ -410,6 +509,12 @@ type solverSpec struct {
 	name string
 	args func(file string, timeoutMs int) []string
 }
+
+// z3 with model-based quantifier instantiation off: E-matching only (much faster on the quantified obligations);
+// its "sat"/"unknown" answers mean nothing, only "unsat" is used
+var z3ematch = solverSpec{"z3-new(ematch)", func(f string, t int) []string {
+	return []string{"z3-new", fmt.Sprintf("-t:%d", t), "smt.mbqi=false", "smt.qi.max_multi_patterns=1000", f}
+}}
 
 var solvers = []solverSpec{
 	{"z3-new", func(f string, t int) []string { return []string{"z3-new", fmt.Sprintf("-t:%d", t), f} }},
@@ -580,7 +685,7 @@ func (o *Obligation) prepare(w *World) {
 	if !o.Cover && (strings.Contains(o.fullSMT, "(is_int_dom ") || strings.Contains(o.fullSMT, "(i2r ")) {
 		o.weakSMT = o.smt(w, nil, nil, true)
 	}
-	if !o.Cover && strings.Contains(o.fullSMT, "(* ") {
+	if !o.Cover && (strings.Contains(o.fullSMT, "(* ") || strings.Contains(o.fullSMT, "(is_int ")) {
 		o.ufSMT = o.smtMode(w, nil, nil, true, true)
 	}
 }
@@ -626,17 +731,34 @@ func solveOne(w *World, o *Obligation, dir string, timeoutMs int) *OblResult {
 		wfile = strings.TrimSuffix(file, ".smt2") + ".noint.smt2"
 		os.WriteFile(wfile, []byte(o.weakSMT), 0o644)
 	}
-	// stage 1: one cheap attempt
-	first := variant{file, solvers[0], "z3-new", true}
+	// stage 1: cheap attempts
+	hasQuant := strings.Contains(o.fullSMT, "(forall ")
+	var firsts []variant
 	if ufile != "" {
-		first = variant{ufile, solvers[0], "z3-new(uf-products)", false}
+		firsts = append(firsts, variant{ufile, solvers[0], "z3-new(uf-products)", false})
+	} else {
+		firsts = append(firsts, variant{file, solvers[0], "z3-new", true})
 	}
-	r := runSolver(context.Background(), first.sp, first.file, min(timeoutMs, 1500))
-	if r.Status == "unsat" || (r.Status == "sat" && first.full) {
-		r.Solver = first.label
-		res.R = r
-		res.OK = r.Status == "unsat"
-		return res
+	if hasQuant {
+		if ufile != "" {
+			firsts = append(firsts, variant{ufile, z3ematch, "z3-new(ematch,uf-products)", false})
+		} else {
+			firsts = append(firsts, variant{file, z3ematch, "z3-new(ematch)", false})
+		}
+	}
+	for i, first := range firsts {
+		budget := 1500
+		if i > 0 {
+			budget = 4000
+		}
+		r := runSolver(context.Background(), first.sp, first.file, min(timeoutMs, budget))
+		if r.Status == "unsat" || (r.Status == "sat" && first.full) {
+			r.Solver = first.label
+			r.Time = time.Since(t0).Seconds()
+			res.R = r
+			res.OK = r.Status == "unsat"
+			return res
+		}
 	}
 	// stage 2: everything else in parallel; first definite answer wins
 	vs := []variant{{file, solvers[0], "z3-new", true}, {file, solvers[2], "cvc5", true}, {file, solvers[1], "z3", true}}
@@ -645,6 +767,12 @@ func solveOne(w *World, o *Obligation, dir string, timeoutMs int) *OblResult {
 	}
 	if ufile != "" {
 		vs = append(vs, variant{ufile, solvers[2], "cvc5(uf-products)", false})
+	}
+	if hasQuant {
+		vs = append(vs, variant{file, z3ematch, "z3-new(ematch)", false})
+		if ufile != "" {
+			vs = append(vs, variant{ufile, z3ematch, "z3-new(ematch,uf-products)", false})
+		}
 	}
 	ctx, cancel := context.WithCancel(context.Background())
 	defer cancel()
